@@ -78,7 +78,7 @@ class CEnv:
 
 
 class Node:
-    __slots__ = ('id', 'desc', 'loc', 'children', 'terminal', 'path', 'parent', 'pcase', 'depth')
+    __slots__ = ('id', 'desc', 'loc', 'children', 'terminal', 'path', 'parent', 'pcase', 'depth', 'fp', 'alts')
 
     def __init__(self, nid, path, parent, pcase):
         self.id = nid
@@ -90,6 +90,8 @@ class Node:
         self.parent = parent
         self.pcase = pcase
         self.depth = len(path)
+        self.fp = None
+        self.alts = []  # other paths of the thread that lead to the same local state (merged)
 
 
 class Tree:
@@ -143,6 +145,10 @@ class Explorer:
         self.visited = set()
         self.states_seen = 0
         self.stack = []
+        self.fpmap = {}
+        self.merge = None
+        self.merges = 0
+        self.validations = 0
 
     # -------------------------------------------------------------------------------------
     def add_thread(self, name, parent, prefix, sig):
@@ -183,12 +189,18 @@ class Explorer:
             raise Abort()
 
     # ---- called by rt.op beyond the script ------------------------------------------------
-    def pick(self, ctx, obj, op, iargs, loc):
+    def pick(self, ctx, obj, op, iargs, loc, fp=None):
         """Solo continuation: take the first case that is enabled in the scratch global state.
         Returns a case, or None (blocked / alias / no scratch)."""
         tr = ctx.trace
         d = len(tr)
         desc = (obj._vname, obj._kind, op, iargs)
+        if fp is not None and not self.validating:
+            tgt = self.fpmap.get((ctx.name, desc, fp))
+            if tgt is not None and tgt.path != tuple(ctx.script[: ctx.pos]):
+                # the same local state was reached before along another history: merge
+                self.merge = tgt
+                return 'ALIAS'
         for p in range(1, self.max_cycle + 1):
             if d < 2 * p:
                 break
@@ -261,6 +273,7 @@ class Explorer:
         rt.aborting = False
         self.finished = None
         self.alias = None
+        self.merge = None
         rt.limit_hit = None
         status = None
         out = io.StringIO()
@@ -283,7 +296,7 @@ class Explorer:
         if rt.error:
             e, rt.error = rt.error, None
             raise e
-        alias = self.alias
+        alias = self.alias if self.merge is None else ('merge', self.merge)
         if root_is_target:
             tctx, tstatus = ctx, status
         elif self.finished is not None:
@@ -306,6 +319,9 @@ class Explorer:
                     raise Unsupported(f'{tname}: operation after a recorded thread end (non-determinism)')
                 node.desc = rec.desc()
                 node.loc = rec.loc
+                if rec.fp is not None:
+                    node.fp = rec.fp
+                    self.fpmap.setdefault((tname, node.desc, rec.fp), node)
             elif node.desc != rec.desc():
                 raise Unsupported(
                     f'non-deterministic thread-local behaviour in {tname} at depth {i}: '
@@ -317,12 +333,20 @@ class Explorer:
             last = i == len(tr) - 1
             if child is None:
                 if alias is not None and last:
+                    if isinstance(alias, tuple):
+                        tgt = alias[1]
+                        node.children[rec.case] = tgt
+                        if len(tgt.alts) < 3 and path != tgt.path:
+                            tgt.alts.append(path)
+                        self.merges += 1
+                        return
                     anc = node
                     for _ in range(alias - 1):
                         anc = anc.parent
                     node.children[rec.case] = anc
                     return
                 child = tree.new_node(path, node, rec.case)
+                child.alts = [a + (rec.case,) for a in node.alts[:2]]
                 node.children[rec.case] = child
             elif alias is not None and last:
                 return
@@ -332,12 +356,41 @@ class Explorer:
                 raise Unsupported(f'{tname}: path ends where an operation was recorded before (non-determinism)')
             node.terminal = status
 
+    validating = False
+
     def expand(self, tname, path, scratch):
         """Execute thread tname along `path` and solo-continue from global state `scratch`."""
         self.scratch = scratch
         ctx, status, alias = self.run(tname, path)
         self.insert(tname, ctx, status, alias)
         self.scratch = None
+        # differential validation of fingerprint merges: if the node this path leads to can also be
+        # reached along a merged history, that history must show the same next operation
+        node = self.threads[tname].tree.root
+        for c in path:
+            node = node.children.get(c)
+            if node is None:
+                return
+        if node.alts:
+            alt = node.alts[self.validations % len(node.alts)]
+            self.validations += 1
+            self.validating = True
+            try:
+                ctx2, status2, _ = self.run(tname, alt)
+            finally:
+                self.validating = False
+            tr = ctx2.trace
+            if len(tr) > len(alt):
+                got = ('op', tr[len(alt)].desc())
+            elif status2 is not None:
+                got = ('end', status2[0])
+            else:
+                got = None
+            want = ('op', node.desc) if node.desc is not None else (
+                ('end', node.terminal[0]) if node.terminal is not None else None)
+            if got is not None and want is not None and got != want:
+                raise Unsupported(f'fingerprint merge refuted in {tname}: via {node.path[-3:]} next is {want}, '
+                                  f'via merged history {alt[-3:]} it is {got}')
 
     # ---- budgeted concrete exploration of the product -------------------------------------------
     def node_at(self, st, t):
@@ -471,4 +524,6 @@ class Explorer:
             'concolic_states': self.states_seen,
             'concolic_complete': bool(getattr(self, 'complete', False)),
             'explore_s': round(self.t_explore, 2),
+            'fingerprint_merges': self.merges,
+            'merge_validations': self.validations,
         }
